@@ -186,6 +186,10 @@ func replayOp(tr *vhlib.Trace, p vhlib.ParsedLine) {
 		doRenew3(tr, decRev(p, "e"), decRev(p, "f"), rk, parseCur(p.Args["base"]), parseCur(p.Args["risk"]), p.U64("h"), decSt(p))
 	case "s2roots", "s2read", "s2write", "s3pay", "s3fund", "s3exec":
 		doSite(tr, decSite(p))
+	case "q2":
+		doQ2(tr, decQ2(p))
+	case "q3":
+		doQ3(tr, decQ3(p))
 	case "signsites":
 		doSignSites(tr)
 	case "rpcform2":
